@@ -1,6 +1,7 @@
 package checks
 
 import (
+	"fmt"
 	"math/rand"
 	"testing"
 	"time"
@@ -62,18 +63,38 @@ var wlConnectEdge = Workload{
 	},
 }
 
+// wlFullWorld: API programs run by the real client library against the real gateway (the C26
+// worlds); the universal monitors see the client library's datagrams too.
+var wlFullWorld = Workload{
+	Name: "client+gateway",
+	N:    func(r *rt.Run) int { return r.N(400, 8000) },
+	Run: func(t *testing.T, c *rt.Case, i int, rng *rand.Rand) *GWRun {
+		res := c26exec(t, rng)
+		g := &GWRun{Cfg: world.GWConfig{Predefined: c26Predefined()}, NSess: 1, Script: res.ps, Evs: res.evs, Extra: map[string]interface{}{"real_client": true}}
+		g.Desc = "api-program|" + fmt.Sprint(res.ps)
+		g.Items, g.RestOut = g.Session(0)
+		return g
+	},
+}
+
 func TestC23(t *testing.T) {
 	r := rt.Start(t, "C23")
-	wls := []Workload{wlConnectEdge, wlBigBroker, wlTrafficClean, wlTrafficHostile, wlTrafficBroker, wlConnectRandom, wlSleep}
+	wls := []Workload{wlConnectEdge, wlBigBroker, wlTrafficClean, wlTrafficHostile, wlTrafficBroker, wlConnectRandom, wlSleep, wlFullWorld}
 	runWorkloads(t, r, wls, func(g *GWRun) ([]monitors.V, int) {
-		return monitors.C23(g.Items, world.SNOut)
+		vs, n := monitors.C23(g.Items, world.SNOut)
+		if g.Extra != nil && g.Extra["real_client"] == true {
+			// the client library is bisquitt code too: its datagrams are judged like the gateway's
+			vs2, n2 := monitors.C23(g.Items, world.SNIn)
+			vs, n = append(vs, vs2...), n+n2
+		}
+		return vs, n
 	})
-	r.Finish("every datagram the gateway sent to the client in the union of the workloads connect-edge-replies (zero keep-alive, bad protocol ID, CONNECT while awake/asleep), broker-big-payloads (broker payloads 7168..70000 bytes x QoS 0-2), traffic-clean/hostile/broker, connect-random and sleep is parsed by the independent spec-table parser: decodable, type valid gateway->client, Length field == size, size <= 8192. (The client library's datagrams are checked by C26/C17's worlds with the same monitor.) "+trafficRule, nil)
+	r.Finish("every datagram the gateway sent to the client in the union of the workloads connect-edge-replies (zero keep-alive, bad protocol ID, CONNECT while awake/asleep), broker-big-payloads (broker payloads 7168..70000 bytes x QoS 0-2), traffic-clean/hostile/broker, connect-random and sleep is parsed by the independent spec-table parser: decodable, type valid gateway->client, Length field == size, size <= 8192. Workload client+gateway: random API programs (see C26) run by the real client library against the real gateway; there the client library's datagrams are parsed and judged in the same way (direction client->gateway). "+trafficRule, nil)
 }
 
 func TestC24(t *testing.T) {
 	r := rt.Start(t, "C24")
-	wls := []Workload{wlTrafficHostile, wlTrafficClean, wlConnectRandom, wlConnectExhaustive, wlSleep}
+	wls := []Workload{wlTrafficHostile, wlTrafficClean, wlConnectRandom, wlConnectExhaustive, wlSleep, wlFullWorld}
 	runWorkloads(t, r, wls, func(g *GWRun) ([]monitors.V, int) {
 		return monitors.C24(g.Items, g.RestOut)
 	})
